@@ -1843,6 +1843,11 @@ func (s *scanner) addEntryPoints(entryPoints []EntryPoint) []graph.EntryPoint {
 	s.timer.Begin("Add entry points")
 	defer s.timer.End("Add entry points")
 
+	// The loop below that checks each entry point modifies the entries of this
+	// slice. Work on a copy because the caller reuses its slice for every
+	// rebuild of a build context, and a rebuild must behave like a fresh build.
+	entryPoints = append([]EntryPoint{}, entryPoints...)
+
 	// Reserve a slot for each entry point
 	entryMetas := make([]graph.EntryPoint, 0, len(entryPoints)+1)
 
